@@ -475,7 +475,7 @@ def _run(ctx):
             continue
         emp = [v for a, v in p.guards() if isinstance(a, tuple) and a[0] == "empty"]
         if emp == [True]:
-            rej = isinstance(p.outcome[1], tuple) and p.outcome[1][0] == "agg" and p.outcome[1][2] == "Err"
+            rej = _is_err_value(p.outcome[1])
     ck.ob("C14-R3", pf.path, "empty-`from`-array-is-rejected", rej)
     n_map = 0
     for fn in ("fancy_layout_interpreting::convert_single", "fancy_layout_interpreting::convert_row", "fancy_layout_interpreting::convert_alias",
@@ -559,8 +559,39 @@ def loader_validation(ctx, ck):
             if okbody and brk:
                 here |= vf
                 last_loop_pos = i
+        # the same pass as an expression:  res.iter().try_for_each(check_no_repeated_keys)?  (stops at the first Err, which `?`
+        # hands on; reaching the code behind it means every element passed)
+        for i, e in enumerate(p.events):
+            if e.kind == "call" and method_name(e.a) == "try_for_each" and len(e.b) == 2 and isinstance(e.b[0], tuple) and e.b[0][0] == "iter" and e.b[0][2] == "fwd" \
+                    and mir.strip(e.b[0][1]) == res and isinstance(e.b[1], tuple) and e.b[1][0] == "const" and isinstance(e.b[1][1], tuple) and e.b[1][1][0] == "fn" \
+                    and e.b[1][1][1] in ctx.F.bodies:
+                tried = [g for g in p.events[i:] if g.kind == "guard" and g.a == T("variantof", T("try", e.c)) and g.b == "Continue"]
+                if not tried:
+                    continue
+                vname = e.b[1][1][1]
+                mir.Walker.AUTO_INLINE = True
+                try:
+                    vb = ctx.body(vname)
+                    vb.loops()
+                finally:
+                    mir.Walker.AUTO_INLINE = False
+                for vb_ in (vb, ctx.body(vname)):
+                    for f, kind, _ in pairwise_checks(ctx, vb_, lambda t, vb_=vb_: t == T("param", 1, vb_.dbg.get(1, "")), strict=True):
+                        if kind == "err":
+                            here.add(f)
+                last_loop_pos = max(last_loop_pos, i)
         # nothing is pushed onto res after the validation
         later = [e for e in p.events[last_loop_pos + 1:] if e.kind == "call" and method_name(e.a) in ("push", "insert", "append", "extend") and e.b and mir.strip(e.b[0]) == res]
+        # ... nor handed to anything that could (a later pass that gets `&mut res` -- adjust_repeats appends identity mappings
+        # for repeat-only entries -- must come BEFORE the validation)
+        for e in p.events[last_loop_pos + 1:]:
+            if e.kind == "call" and e.d and any(mir.strip(r_) == res or mir.mentions(r_, res) for r_ in e.d) and method_name(e.a) not in ("iter", "into_iter", "deref", "len"):
+                later.append(e)
+            if e.kind == "loop":
+                for q in mir.walk_loop_only(cb, e.a):
+                    for e2 in q.events:
+                        if e2.kind == "call" and e2.d and any(mir.strip(r_) == res or mir.mentions(r_, res) for r_ in e2.d) and method_name(e2.a) not in ("iter", "into_iter", "deref", "len", "next"):
+                            later.append(e2)
         if later:
             here = set()
         fields = here if fields is None else (fields & here)
